@@ -528,9 +528,13 @@ func (g *c15Gen) rule(namespaced bool, hostile bool) (interface{}, string) {
 	own := "ns1"
 	n := 10
 	if hostile {
-		n = 16
+		n = 17
 	}
-	switch g.r.Intn(n) {
+	x := g.r.Intn(n)
+	if (x == 6 || x == 7) && !hostile && g.r.Bool() {
+		x = g.r.Intn(6) // keep refused rules to about one scenario in four
+	}
+	switch x {
 	case 0, 1:
 		sel, f := g.selector()
 		ru["labelSelector"] = sel
@@ -609,6 +613,9 @@ func (g *c15Gen) rule(namespaced bool, hostile bool) (interface{}, string) {
 	case 14:
 		ru["names"] = A{nil, "a"}
 		return ru, "null-name-entry"
+	case 16:
+		ru["labelSelector"] = J{"matchLabels": J{"Tier/x_y": "A.b"}} // valid for apimachinery, outside the modelled syntax
+		return ru, "label-syntax-outside-domain"
 	case 15:
 		ru["Namespace"] = "ns2" // unknown field (the decoder is case-sensitive): ignored
 		ru["extra"] = J{"x": int64(1)}
@@ -887,6 +894,33 @@ func c15Generate(seed uint64, n int, adv bool) []*c15Scenario {
 	return out
 }
 
+// c15TagNullRule: the feature the known-findings file keys on
+func c15TagNullRule(sc *c15Scenario) {
+	has := strings.Contains(sc.Hook.Raw, "[null")
+	scan := func(rs []interface{}) {
+		for _, r := range rs {
+			if r == nil {
+				has = true
+			}
+		}
+	}
+	if sc.Hook.Raw == "" {
+		scan(sc.Hook.Rules)
+		for _, rs := range sc.Hook.ByGen {
+			scan(rs)
+		}
+	}
+	if !has {
+		return
+	}
+	for _, f := range sc.Features {
+		if f == "null-rule" {
+			return
+		}
+	}
+	sc.Features = append(sc.Features, "null-rule")
+}
+
 // ---- the test ----
 
 func TestVerif_C15(t *testing.T) {
@@ -926,6 +960,7 @@ func TestVerif_C15(t *testing.T) {
 		scs = c15Generate(env.Seed, n, os.Getenv("VERIF_ADV") == "1")
 	}
 	for i, sc := range scs {
+		c15TagNullRule(sc)
 		rec, err := c15Run(sc)
 		if err != nil {
 			t.Fatalf("scenario %d (%s): %v", i, sc.Family, err)
